@@ -190,6 +190,9 @@ def REPLACE(
     old_text_str = str(old_text)
     start_num_int = int(start_num) - 1  # Excel is 1-based, Python is 0-based
     num_chars_int = int(num_chars)
+    if start_num_int < 0 or num_chars_int < 0:
+        raise xlerrors.ValueExcelError(
+            f'start_num {start_num} is < 1 or num_chars {num_chars} is < 0')
     new_text_str = str(new_text)
 
     sliced_old_text = old_text_str[start_num_int:
